@@ -9,4 +9,7 @@ S=$(mktemp -d "${TMPDIR:-/tmp}/verif-setup-XXXXXX")
 trap 'rm -rf "$S"' EXIT
 stage_inst "$S"
 if [ -d harness/plain/cmd/pharness ]; then stage_plain "$S"; fi
+# runtime-model conformance (litmus suite): the explorer's channel/select/sync/context/timer model against the real Go runtime
+./check ENGINE quick > "$S/engine.log" 2>&1 || { cat "$S/engine.log"; echo "setup: litmus conformance suite failed"; exit 1; }
+tail -1 "$S/engine.log"
 echo "setup ok"
